@@ -1,7 +1,7 @@
 SPECIFICATION RSpec
 CONSTANTS
   MaxFields = 1
-  TagNumbers = {0, 16, 300}
+  TagNumbers = {0, 16, 63, 64, 255, 256, 300, 320}
   MaxId = 1
   GenKinds = {"bool","int","i32","i64","s32","s64","uint","u32","u64","x32","x64","flt","dbl","str","byt","arr","arr7","arr15","arr16","m1","m2","m3","m4"}
   FixPresence = TRUE
